@@ -124,13 +124,18 @@ def run_flow_check(pid, tier, own, closed_cases, real_cases, gen=0, gen_kw=None,
 QUICK_CLOSED = [("Z1", dict(n=2)), ("Z2", dict(n=2)), ("Z3", dict(n=2)), ("Z4", dict(n=1)), ("Z5", dict(n=3, m=1)),
                 ("Z6", dict(n=2)), ("Z7", dict(n=2)), ("Z8", dict(n=2)), ("Z9", dict(n=1)), ("Z10", dict(n=3)),
                 ("Z14", dict(n=3)), ("Z15", {}), ("Z16", dict(n=2)), ("Z17", dict(n=3)), ("Z18", dict(n=2)), ("Z19", dict(n=2)),
-                ("Z5c", dict(n=3, m=1)), ("Z5c", dict(n=2, m=0))]
+                ("Z5c", dict(n=3, m=1)), ("Z5c", dict(n=2, m=0)),
+                # empty streams: no file source item, no parameter value, one of two ports empty, a leaf driver with nothing to do
+                ("Z1", dict(n=0)), ("Z3", dict(n=0)), ("Z5", dict(n=3, m=0)), ("Z6", dict(n=0)), ("Z9", dict(n=0)), ("Z16", dict(n=0))]
 THOROUGH_CLOSED = QUICK_CLOSED + [("Z1", dict(n=3)), ("Z1", dict(n=3, buf=2)), ("Z2", dict(n=2, buf=2)), ("Z3", dict(n=2, buf=2, mx=1)),
                                   ("Z4", dict(n=2)), ("Z9", dict(n=2)), ("Z13", dict(n=1)), ("Z5b", dict(n=3, m=1)),
                                   ("Z7", dict(n=2, mx=1)), ("Z10", dict(n=4, buf=2, mx=2)), ("Z6", dict(n=3))]
 REAL = [("Z1", dict(n=4)), ("Z2", dict(n=4)), ("Z3", dict(n=4)), ("Z4", dict(n=3)), ("Z5", dict(n=3, m=1)), ("Z6", dict(n=3)),
         ("Z7", dict(n=3)), ("Z8", dict(n=3)), ("Z9", dict(n=3)), ("Z10", dict(n=5)), ("Z13", dict(n=3)), ("Z14", dict(n=4)),
         ("Z15", {}), ("Z16", dict(n=3)), ("Z5b", dict(n=4, m=1)), ("Z5b", dict(n=6, m=1, buf=2)), ("Z17", dict(n=5)),
+        # stream lengths 0 and far beyond the small buffer sizes
+        ("Z1", dict(n=0)), ("Z3", dict(n=0)), ("Z5", dict(n=3, m=0)), ("Z6", dict(n=0)), ("Z9", dict(n=0)), ("Z16", dict(n=0)), ("Z7", dict(n=0)),
+        ("Z10", dict(n=40, mx=4, buf=16)), ("Z3", dict(n=24, mx=4, buf=8)),
         # partially completed earlier runs: outputs of later items exist already
         ("Z1", dict(n=4, mx=3), dict(pre=["a.out_3_w"])), ("Z1", dict(n=4, mx=3), dict(pre=["a.out_2_v", "a.out_4_y"])),
         ("Z3", dict(n=4, mx=3), dict(pre=["a.out_3", "b.out_2"])), ("Z2", dict(n=3), dict(pre=["a.out_2", "a.out_3"]))]
